@@ -427,6 +427,8 @@ func RunNestedRecovery(r sim.Src, mons []*sim.Mon, keepLog bool) *sim.World {
 	}
 	cfg := sim.Cfg{IDs: n, Validators: func(uint32) []int { return base }, ValDesc: fmt.Sprintf("const[0..%d]", n-1), StartTip: uint32(r.Intn("tip", 40)),
 		AMEVHeight: amev, TimePerBlock: time.Second, TsIncrement: 1_000_000, Epoch: epoch0}
+	cfg.SaltedSigs = r.Intn("saltedsigs", 2) == 1
+	cfg.PreDataTxOnly = amev >= 0 && r.Intn("predata", 2) == 1
 	s := sim.NewSolo(cfg, r, self, false, mons, keepLog)
 	nd := s.N
 	nd.Start()
